@@ -472,7 +472,10 @@ Next ==
                             tree' = U[i] /\ act' = <<"init", i>> /\ out' = NoOut
     [] OTHER -> /\ TLCGet("level") < 3 + MaxLevel
                 /\ \E api \in P({"patch", "rebind", "rebind_nr"}) :
-                     \E c \in P(ApiConds(api)), vf \in P(Rng(Vfs)), mode \in P(Rng(Modes)) : Apply(c, vf, api, mode)
+                     \E c \in P(ApiConds(api)), vf \in P(Rng(Vfs)) :
+                       \* exhaustive runs vary the notification mode on the conditions of ModeConds only
+                       \E mode \in (IF SimK = 0 /\ c \notin Rng(ModeConds) THEN {"default"} ELSE P(Rng(Modes))) :
+                         Apply(c, vf, api, mode)
 
 Init == /\ tree = Lv(<<>>)
         /\ act = <<"boot">>
